@@ -346,6 +346,7 @@ class ODb:
         n.form, n.down, n.taint = form, self.down, self.taint
         n.half = self.half if form != "sql" else 0
         if form == "sql":
+            # before 74325d9 the SQLite form only received the sketches that were non-empty (D11)
             n.rows = sum(1 for e in self.entries if self.kept(e))
         return n
 
